@@ -33,7 +33,7 @@ CLAIMS = {
                 'are necessary conditions of the property for all inputs at '
                 'once; the behaviour itself (injectivity of naming over all '
                 'path pairs) is not decided.'
-                ' Added: NAME-STRIP-ONCE (default_name + output_file strip the extension at most once), every suffix reaching directory.append passed the parent-reference rewrite, PATH-COMPONENTWISE (no string-prefix/ordering operations on path suffixes).',
+                ' Added: NAME-STRIP-ONCE (default_name + output_file strip the extension at most once), every suffix reaching directory.append passed the parent-reference rewrite, PATH-COMPONENTWISE (no string-prefix/ordering operations on path suffixes). output_file takes no decision on the content of the name (name.endswith(...) style tests make naming non-injective).',
         'note': _TB + 'Not decided: injectivity of output naming beyond the '
                 'rewrite; explicit absolute output names.',
         'technique': 'regex structure analysis (re._parser) + CFG dominance '
@@ -122,7 +122,7 @@ CLAIMS.update({
                 'defines the variables its paths can reference; '
                 '(UNORDERED-ITER) no hash-ordered iteration in '
                 'builtins.pkg_config/versioning reaches the file.'
-                ' Added: PC-BOUND-TIEBREAK (the sort key of simplify_specifiers is evaluated symbolically for the four bound operators: the stricter bound wins).',
+                ' Added: PC-BOUND-TIEBREAK (the sort key of simplify_specifiers is evaluated symbolically for the four bound operators: the stricter bound wins). PC-READBACK: pkg-config output is split with escapes=True, auto-filled includes/libs come from install.explicit.',
         'note': _TB + 'Not decided: what pkg-config prints; equivalence of '
                 'simplified specifier sets over all versions. Known finding '
                 'F9 (#); F7 repaired by a fix: commit.',
@@ -217,7 +217,7 @@ CLAIMS.update({
                 'three, depfile argument under the gcc flavor in all three. '
                 'It decides agreement of the code shape, not equality of the '
                 'evaluated command lines.'
-                ' Added: CompDB keeps every entry (list, unconditional append, dumped whole); ENV-EXPORT in all three command emitters; dependency-root comparison uses guard-clean roots.',
+                ' Added: CompDB keeps every entry (list, unconditional append, dumped whole); ENV-EXPORT in all three command emitters; dependency-root comparison uses guard-clean roots; PASS-THROUGH: the make multi-target helper and the ninja command_build helper forward deps/order-only/variables they receive on every path (must-flow).',
         'note': _TB + 'Not decided: equality of evaluated command lines, '
                 'working directories and environments.',
         'technique': 'cross-checking sibling implementations registered in '
@@ -296,7 +296,7 @@ CLAIMS.update({
                 '(NULLABLE-ROUNDTRIP) no saved field changes value across '
                 'save/load. Equality with a fresh configure over histories '
                 'and convergence are not decided.'
-                ' Added: SKIP-ONLY-IF-IDENTICAL (the lazy check compares found and extra of every cached filter; variables are reset before the toolchain replay), registration-order and new-directory clauses (known findings F14, F15).',
+                ' Added: SKIP-ONLY-IF-IDENTICAL (the lazy check compares found and extra of every cached filter; variables are reset before the toolchain replay), registration-order and new-directory clauses (known findings F14, F15). The lazy re-check records the walked directories whenever it walks (no further condition).',
         'note': _TB + 'Not decided: equality of regenerated files with a '
                 'fresh configure over edit histories; mtime orderings; '
                 'convergence. F4 and F12 repaired by fix: commits.',
@@ -376,7 +376,7 @@ CLAIMS.update({
                 'by __eq__; (PATH-JSON) to_json writes 3 elements incl. the '
                 'directory flag, from_json reads indices 0..2 in constructor '
                 'order. The algebraic laws over all strings are not decided.'
-                ' Added: PATH-COMPONENTWISE and RELPATH-IMPL (relative paths come from posixpath.relpath on the two suffixes).',
+                ' Added: PATH-COMPONENTWISE and RELPATH-IMPL (relative paths come from posixpath.relpath on the two suffixes). HASH-EQ follows methods called on self (hash(tuple(self.to_json())) reads the directory flag).',
         'note': _TB + 'Not decided: relpath/append inverse, realise = join, '
                 'commonprefix/uniquetrees minimality over all strings.',
         'technique': 'who-may-write + CFG dominance + attribute-set '
